@@ -63,27 +63,31 @@ Proof.
 Qed.
 
 (* leaving an application block whose body does not itself change the block's context: exactly one
-   more event, the stop command for the block's application id, and the stack is restored *)
-Theorem application_stop : forall c pos kw blk s sg e a z,
+   more event, the stop command for the block's application id, and the stack is restored -- also when the
+   connection raises a BaseException (KeyboardInterrupt, ...) while that command is being sent *)
+Theorem application_stop : forall c pos kw blk (intr : bool) s sg e a z,
   find_sig "MC" "application" = Some sg -> resolve sg s pos kw = Some e ->
   sassoc "app_id" (e_args e) = Some a -> as_int a = Some z -> no_update_here blk ->
   exists evb rb k,
     run_ops c "MC" blk (s ++ [mkdict [("app_id", a)]]) = (evb, s ++ [mkdict [("app_id", a)]], rb)
     /\ chip_connection_ok c (VInt 255) (VInt 255) k
-    /\ run_op c "MC" (OApp pos kw blk) s = (evb ++ [EvStop ([stop_wire k a], None)], s, rb).
+    /\ run_op c "MC" (OApp pos kw blk intr) s
+       = (evb ++ [EvStop ([stop_wire k a], if intr then Some IntrErr else None)], s, rb || intr).
 Proof.
-  intros c pos kw blk s sg e a z Hs Hr Ha Hz Hn.
-  destruct (application_exit c "MC" pos kw blk s sg e a Hs Hr Ha) as [evb [fr [rb [H1 [H2 H3]]]]].
+  intros c pos kw blk intr s sg e a z Hs Hr Ha Hz Hn.
+  destruct (application_exit c "MC" pos kw blk intr s sg e a Hs Hr Ha) as [evb [fr [rb [H1 [H2 H3]]]]].
   specialize (H2 Hn). subst fr.
   assert (Hl : stack_lookup "app_id" (s ++ [mkdict [("app_id", a)]]) = Some a)
     by (rewrite stack_lookup_snoc, slast_mkdict_single; reflexivity).
   destruct (send_signal_from_context c _ stop_signal a z Hl Hz) as [k [Hk Hc]].
   { exists AppSignal_stop. reflexivity. }
   exists evb, rb, k. split; [exact H1|]. split; [apply mc_connection_choice; exact Hk|].
-  rewrite H3.
+  cbv zeta in H3. rewrite H3.
   assert (Ho : forall o : outcome, o = ([stop_wire k a], None) ->
-               (evb ++ [EvStop o], s, rb || has_err o) = (evb ++ [EvStop ([stop_wire k a], None)], s, rb)).
-  { intros o Eo. subst o. simpl. rewrite orb_false_r. reflexivity. }
+               (evb ++ [EvStop (if intr then interrupted o else o)], s,
+                rb || has_err (if intr then interrupted o else o))
+               = (evb ++ [EvStop ([stop_wire k a], if intr then Some IntrErr else None)], s, rb || intr)).
+  { intros o Eo. subst o. destruct intr; simpl; [reflexivity|]. reflexivity. }
   apply Ho. exact Hc.
 Qed.
 
@@ -135,7 +139,7 @@ Lemma ex_application_instance :
     find_sig "MC" "application" = Some sg /\ resolve sg ex_stack [VInt 17] [] = Some e
     /\ sassoc "app_id" (e_args e) = Some (VInt 17) /\ as_int (VInt 17) = Some 17
     /\ no_update_here ex_block
-    /\ run_op ex_ctl "MC" (OApp [VInt 17] [] ex_block) ex_stack
+    /\ run_op ex_ctl "MC" (OApp [VInt 17] [] ex_block false) ex_stack
        = ([EvCall "sdram_alloc" ([MkWire 1 0 (VInt 1) (VInt 2) (VInt 0) (VInt SCP_alloc_free)
                                          [(0%nat, 0, 255, Alloc_alloc_sdram)] [(FByte, 0%nat, 8, VInt 17)]], None);
            EvCall "sdram_alloc" ([MkWire 1 0 (VInt 3) (VInt 2) (VInt 0) (VInt SCP_alloc_free)
@@ -174,4 +178,17 @@ Lemma ex_nested_core_instance :
   call FUEL (MkCtl None None None [] []) "MC" "get_processor_status"
        [[("app_id", VInt 66)]; [("x", VInt 1); ("y", VInt 2); ("p", VInt 3)]] [VInt 5] []
   = ([MkWire 0 1 (VInt 1) (VInt 2) (VInt 3) VNone [] []; MkWire 0 1 (VInt 1) (VInt 2) (VInt 3) VNone [] []], None).
+Proof. vm_compute. reflexivity. Qed.
+
+(* a Ctrl-C while the stop command of an application block is being sent, caught further out; and a block
+   whose exit callback raises: in both cases the commands that follow carry the outer arguments again *)
+Lemma ex_interrupt_instance :
+  run_ops ex_ctl "MC"
+    [ OTry [ OApp [VInt 17] [] [ OWithCb [("app_id", VInt 30)] [ OCall "sdram_free" [VInt 4; VInt 1; VInt 2] [] false ] ] true ];
+      OCall "send_signal" [stop_signal] [] false ] [[("app_id", VInt 66)]]
+  = ([EvCall "sdram_free" ([MkWire 1 0 (VInt 1) (VInt 2) (VInt 0) (VInt SCP_alloc_free)
+                                   [(0%nat, 0, 255, Alloc_free_sdram_by_ptr)] []], None);
+      EvStop ([stop_wire 3 (VInt 17)], Some IntrErr);
+      EvCall "send_signal" ([stop_wire 3 (VInt 66)], None)],
+     [[("app_id", VInt 66)]], false).
 Proof. vm_compute. reflexivity. Qed.
